@@ -12,7 +12,8 @@ CFG = dict(
           "run lock-step against the real goat.Proxy on every run.",
     props="Props/C16.v",
     theorems=["C16_accounting", "C16_route", "C16_drop_only_when_full", "C16_no_loss", "C16_source_order", "C16_pair_order",
-              "C16_dial_once", "C16_redial", "C16_complete_means_complete_refuted"],
+              "C16_dial_once", "C16_redial", "C16_no_loss_outstanding", "C16_wire", "C16_return_route",
+              "C16_complete_means_complete_refuted"],
     imports=["Model.Proxy", "Check.C16c"],
     case_type="pxcase",
     find_bad_from="find_bad_from",
